@@ -29,8 +29,12 @@ type C17Case struct {
 	Pad     bool           `json:"pad,omitempty"`     // extra white space inside brackets
 	// Poison, when set, is a query the rewriters reject; it is executed (and its outcome ignored) under
 	// all three options right before the variant: a rejected query must leave nothing behind
-	Poison  string `json:"poison,omitempty"`
-	BSQuote bool   `json:"bsquote,omitempty"` // variant spells a quote inside a literal as \' (canonical: '')
+	Poison string `json:"poison,omitempty"`
+	// Prime, when set, names another option set ("", "pg", "arrays", "pg+arrays") under which the very
+	// same query text is executed first (outcome ignored): what a text means depends on the options of
+	// the call at hand only, never on an earlier call with the same text
+	Prime   *string `json:"prime,omitempty"`
+	BSQuote bool    `json:"bsquote,omitempty"` // variant spells a quote inside a literal as \' (canonical: '')
 }
 
 var c17LitPieces = []string{"\"", "'", "`", "\\", "[", "]", "é", "日本", "a", " ", "[1,2]", "\"x\"", "\\\"", "]]", "[[", "''", "b", "😀", "\\\\", "ARRAY(", ")", ","}
@@ -119,6 +123,17 @@ func genC17(t *rapid.T) any {
 	if rapid.IntRange(0, 3).Draw(t, "poison") == 0 {
 		c.Poison = rapid.SampledFrom([]string{"SELECT \"k\" FROM \"t\" WHERE \"s\" = 'bob\\", "SELECT \"k\\", "SELECT [1, [2 FROM \"t\"", "SELECT 1] FROM t", "SELECT 'abc\\", "SELECT \"a FROM t",
 			"SELECT ']' , [ FROM \"t\"", "SELECT \"x\" FROM \"nosuch\" WHERE", "SELECT `k` FROM `t` WHERE s = 'it''s \\"}).Draw(t, "poisontext")
+	}
+	if rapid.IntRange(0, 2).Draw(t, "prime") == 0 {
+		own := map[[2]bool]string{{false, false}: "", {true, false}: "pg", {false, true}: "arrays", {true, true}: "pg+arrays"}[[2]bool{c.PG, c.Arrays}]
+		var others []string
+		for _, o := range []string{"", "pg", "arrays", "pg+arrays"} {
+			if o != own {
+				others = append(others, o)
+			}
+		}
+		p := rapid.SampledFrom(others).Draw(t, "primeopts")
+		c.Prime = &p
 	}
 	identPool := append([]string{}, c17Idents...)
 	aliasPool := append([]string{}, c17Aliases...)
@@ -249,6 +264,12 @@ func checkC17(c *C17Case) Result {
 		Run(val.CopyMap(c.Doc), c.Poison, Opts{Wrapped: true, PG: true, Arrays: true})
 		res.Execs++
 		res.Labels = append(res.Labels, "after-a-rejected-query")
+	}
+	if c.Prime != nil {
+		po := Opts{Wrapped: c.Wrapped, PG: strings.Contains(*c.Prime, "pg"), Arrays: strings.Contains(*c.Prime, "arrays")}
+		Run(val.CopyMap(c.Doc), varSQL, po)
+		res.Execs++
+		res.Labels = append(res.Labels, "same-text-first-run-under-other-options")
 	}
 	canon := Run(canonDoc, canonSQL, Opts{})
 	variant := Run(val.CopyMap(c.Doc), varSQL, Opts{Wrapped: c.Wrapped, PG: c.PG, Arrays: c.Arrays})
